@@ -116,11 +116,16 @@ type Rec = { v: number, next: Rec | null };
 type RT = [number, ...RT[]];
 type G<T> = { g: T };
 type Alias = U;
+type D1 = { t: "a", x: string };
+type D2 = { t?: "b", y: number };
+type RS = Set<RS>;
+type RM = Map<string, RM | null>;
+enum En { A = "a", B = "b" }
 "#;
 fn leaves() -> Vec<&'static str> {
     vec![
         "string", "number", "boolean", "null", "undefined", "\"a\"", "1", "true", "any", "unknown", "never", "Date", "bigint", "void",
-        "O", "O2", "U", "Tup", "Rec", "RT", "Alias", "G<string>",
+        "O", "O2", "U", "Tup", "Rec", "RT", "Alias", "G<string>", "D1", "D2", "RS", "RM", "En",
     ]
 }
 fn unary(e: &str) -> Vec<String> {
@@ -174,6 +179,12 @@ fn programs(depth: usize) -> Vec<(String, Vec<(String, String)>)> {
         ("Record keyed by an alias of keyof itself", vec![("entry.ts", "type O = { a: string };\ntype KO = keyof O;\ntype A1 = KO;\ntype A2 = A1;\ntype R = Record<A2, O>;\nparse.buildParsers<{ R: R }>();\n")]),
         ("circular union aliases", vec![("entry.ts", "type A = B | \"x\";\ntype B = A | \"y\";\nparse.buildParsers<{ A: A }>();\n")]),
         ("circular union aliases as Record key", vec![("entry.ts", "type A = B | \"x\";\ntype B = A | \"y\";\ntype R = Record<A, number>;\nparse.buildParsers<{ R: R }>();\n")]),
+        ("default export of a value, typeof import", vec![("t.ts", "const x = { a: 1, b: \"s\" };\nexport default x;\n"), ("entry.ts", "import d from \"./t\";\ntype X = typeof d;\nparse.buildParsers<{ X: X }>();\n")]),
+        ("default export of a call expression, typeof import", vec![("t.ts", "function f() { return 1; }\nexport default f();\n"), ("entry.ts", "import d from \"./t\";\ntype X = typeof d;\nparse.buildParsers<{ X: X }>();\n")]),
+        ("default export of an identifier that is not defined", vec![("t.ts", "export default nothing;\n"), ("entry.ts", "import d from \"./t\";\ntype X = typeof d;\nparse.buildParsers<{ X: X }>();\n")]),
+        ("default export re-exported", vec![("t.ts", "const x = [1, 2] as const;\nexport default x;\n"), ("m.ts", "import d from \"./t\";\nexport default d;\n"), ("entry.ts", "import d from \"./m\";\ntype X = typeof d;\nparse.buildParsers<{ X: X }>();\n")]),
+        ("default export of an arrow function, typeof import", vec![("t.ts", "export default (() => 1);\n"), ("entry.ts", "import d from \"./t\";\ntype X = typeof d;\nparse.buildParsers<{ X: X }>();\n")]),
+        ("typeof of an imported const with an unsupported initialiser", vec![("t.ts", "export const v = new Date();\nexport const w = { a: v, b: () => 1 };\n"), ("entry.ts", "import { v, w } from \"./t\";\ntype X = typeof v;\ntype Y = typeof w;\nparse.buildParsers<{ X: X, Y: Y }>();\n")]),
         ("export star", vec![("t.ts", "export type X = { a: string };\n"), ("m.ts", "export * from \"./t\";\n"), ("entry.ts", "import { X } from \"./m\";\nparse.buildParsers<{ X: X }>();\n")]),
         ("namespace import", vec![("t.ts", "export type X = { a: string };\n"), ("entry.ts", "import * as T from \"./t\";\nparse.buildParsers<{ X: T.X }>();\n")]),
         ("unterminated type", vec![("entry.ts", "type X = { a: string;\nparse.buildParsers<{ X: X }>();\n")]),
@@ -257,7 +268,7 @@ fn child(depth: usize, from: u64, only: Option<u64>, timeout_s: u64) {
     std::process::exit(0);
 }
 fn fail_json(case: u64, descr: &str, files: &[(String, String)], why: &str) -> String {
-    let src: Vec<String> = files.iter().map(|(n, t)| format!("// {}\n{}", n, t.replace(PRELUDE, "/* prelude types O, O2, U, Tup, Rec, RT, G<T>, Alias */\n"))).collect();
+    let src: Vec<String> = files.iter().map(|(n, t)| format!("// {}\n{}", n, t.replace(PRELUDE, "/* prelude types O, O2, U, Tup, Rec, RT, G<T>, Alias, D1, D2, RS, RM, En */\n"))).collect();
     format!("{{\"case\":{},\"input\":{:?},\"observed\":{:?},\"required\":{:?}}}", case, format!("{} :: {}", descr, src.join("\n")), why,
         "compilation returns promptly with generated code or well-located diagnostics; it never panics, crashes or loops")
 }
